@@ -306,11 +306,28 @@ func opUpDown(st *state, args []string) []string {
 	var results []string
 	started := false
 	dead := 0
+	callNo, lastStart, stolen := 0, 0, 0
+	refused := map[int]bool{}
+	byCall := map[int]int{}
 	for _, c := range args[4] {
 		done := make(chan error, 1)
 		switch c {
 		case 'S':
-			go func() { done <- r.Start("127.0.0.1", port, u.decoder("slow")) }()
+			// every Start call hands over a decoder of its own: the decoder of a refused Start must never see a datagram
+			callNo++
+			mine := callNo
+			inner := u.decoder("slow")
+			dec := func(msg interface{}) error {
+				u.mu.Lock()
+				if refused[mine] {
+					stolen++
+				}
+				byCall[mine]++
+				u.mu.Unlock()
+				return inner(msg)
+			}
+			lastStart = mine
+			go func() { done <- r.Start("127.0.0.1", port, dec) }()
 		case 'T':
 			go func() { done <- r.Stop() }()
 		default:
@@ -321,6 +338,12 @@ func opUpDown(st *state, args []string) []string {
 		case e := <-done:
 			if e != nil {
 				results = append(results, "1")
+				if c == 'S' {
+					u.mu.Lock()
+					refused[lastStart] = true
+					stolen += byCall[lastStart]
+					u.mu.Unlock()
+				}
 			} else {
 				results = append(results, "0")
 				started = c == 'S'
@@ -371,7 +394,8 @@ func opUpDown(st *state, args []string) []string {
 	u.mu.Lock()
 	corrupt := u.corrupt
 	u.mu.Unlock()
-	return []string{fmt.Sprintf("res ok results=%s corrupt=%d leak=%d rebind=%d dead=%d", strings.Join(results, ","), corrupt, leak, rebind, dead)}
+	st2 := stolen
+	return []string{fmt.Sprintf("res ok results=%s corrupt=%d leak=%d rebind=%d dead=%d stolen=%d", strings.Join(results, ","), corrupt, leak, rebind, dead, st2)}
 }
 
 // drain <sockets> <workers> <queue> <k>: k datagrams are read and queued behind gated decoders, Stop is
